@@ -339,7 +339,7 @@ impl Engine {
                     c.monitors = v;
                     s_mon = true;
                 }
-                CfgSection::Native { unbonding, validators, staker, collector } => {
+                CfgSection::Native { unbonding, validators, staker, collector, upper } => {
                     c.unbonding = *unbonding;
                     let mut v: Vec<String> = vec![];
                     for i in validators {
@@ -352,6 +352,11 @@ impl Engine {
                     if quiet {
                         c.staker = self.a.nstakers[*staker as usize % self.a.nstakers.len()].clone();
                         c.collector = self.a.ncollectors[*collector as usize % self.a.ncollectors.len()].clone();
+                        if *upper && !self.sw.honest {
+                            // legal upper-case spelling; the native ledger treats it as the configured account
+                            c.staker = c.staker.to_uppercase();
+                            c.collector = c.collector.to_uppercase();
+                        }
                     }
                     s_native = true;
                 }
